@@ -23,6 +23,7 @@ LIMS = [INF, INF, INF, 0.5, 1, 2, 10, 100, 0.125]
 SUPPLIES = [0, 0.0, 1, 2.5, 4, 8.0, 10, 16.5, 100, 1000.0]
 DEMANDS_F = [-8.0, -0.5, 0.0, 0.25, 0.5, 1.0, 1.5, 2.0, 2.75, 3.0, 4.0, 7.5, 8.0, 10.0, 10.5, 11.0, 15.75, 16.0, 20.25, 99.5, 100.0, 1000.0, 1023.875]
 DEMANDS_I = [-8, -1, 0, 1, 2, 3, 4, 7, 8, 10, 11, 15, 16, 20, 21, 99, 100, 101, 1000]
+DEMANDS_HUGE = [2**54 + 6, 2**54 + 7, 10**18 + 2, 2**60, 2**60 + 5, 2**63 - 1, 10**17 + 15, -(2**55) - 3, 3 * 10**20 + 1]
 
 
 def gen(seed, tier):
@@ -33,6 +34,19 @@ def gen(seed, tier):
     # swarm: integer demands, float demands, or both
     mode = rng.choice(["float", "float", "int", "mixed"])
     pool = DEMANDS_F if mode == "float" else DEMANDS_I if mode == "int" else DEMANDS_F + DEMANDS_I
+    huge = False
+    if rng.random() < 0.06:
+        # integers beyond 2**53: exact for Python ints, not representable as floats.  Integer
+        # granularities only (a fractional granule forces float arithmetic on any implementation)
+        mode = "int"
+        huge = True
+        pool = DEMANDS_HUGE + [0, 1, 7]
+        params["granularity"] = rng.choice([1, 2, 3, 4, 8, 10, 100])
+        if rng.random() < 0.7:
+            params["minimum"], params["maximum"] = -INF, INF
+            mn, mx = -INF, INF
+        if rng.random() < 0.7:
+            params["backlog"] = params["surplus"] = INF
     near = [x for x in (mn, mx) if x not in (INF, -INF)]
     n = rng.randint(1, 10) if rng.random() < 0.8 else rng.randint(11, 60)
     ops = []
@@ -54,7 +68,7 @@ def gen(seed, tier):
         elif k == "outside":
             ops.append(["outside", rng.choice(pool)])
         elif k == "incr":
-            ops.append(["incr", rng.randint(1, 12), rng.choice([1, 1, 1.0])])
+            ops.append(["incr", rng.randint(1, 12), 1 if huge else rng.choice([1, 1, 1.0])])
         else:
             ops.append(["props", rng.choice([0.0, 0.25, 0.5, 1.0]), rng.choice([0.0, 0.25, 0.5, 1.0])])
     return {"prop": "C06", "seed": seed, "params": params, "mode": mode, "pool": {"supply": rng.choice(SUPPLIES), "demand": rng.choice(pool), "utilisation": 0.5, "allocation": 0.5}, "ops": ops}
